@@ -1179,6 +1179,11 @@ pub mod types {
     }
 }
 
+/// Verification harnesses with access to this module's private items (only under `cargo kani`).
+#[cfg(kani)]
+#[path = "/verif/kani/proto/in_stream.rs"]
+pub(crate) mod verif_kani;
+
 #[cfg(test)]
 mod tests {
     use super::*;
